@@ -52,6 +52,12 @@ pub struct UpdateOutcome {
   pub node_events_applied: u32,
   pub disk_ops: u64,
   pub sync_marks: Vec<u64>,
+  /// block count of the last commit that returned (acknowledged) in this update
+  pub last_commit_acked: Option<u64>,
+  /// highest block height M received in this update
+  pub max_block_received: Option<u64>,
+  /// named points in the order reached (name, arg)
+  pub point_log: Vec<(String, u64)>,
 }
 
 pub struct SimState {
@@ -101,6 +107,8 @@ pub struct SimState {
   pub trace_log: Option<Vec<String>>,
   pub harness_error: Option<String>,
   pub first_inscription_height: Option<u32>,
+  /// every mutation applied to the simulated node, in order
+  pub world_log: Vec<NodeEvent>,
   sched_rng: Rng,
 }
 
@@ -193,6 +201,7 @@ impl Sim {
         trace_log: None,
         harness_error: None,
         first_inscription_height: config.first_inscription_height,
+        world_log: Vec::new(),
         sched_rng: Rng::new(0),
       }),
       cv: Condvar::new(),
@@ -526,8 +535,15 @@ impl ord::verif::Hooks for SimHooks {
       *n - 1
     };
 
+    if s.outcome.point_log.len() < 4096 {
+      s.outcome.point_log.push((name.to_string(), arg));
+    }
     match name {
+      "commit.after_first" => {
+        s.outcome.last_commit_acked = Some(arg);
+      }
       "block.received" => {
+        s.outcome.max_block_received = Some(arg);
         s.m_next = arg as u32 + 1;
         s.sent_in_block = 0;
         s.next_cut_at = None;
@@ -545,6 +561,12 @@ impl ord::verif::Hooks for SimHooks {
         sim.cv.notify_all();
       }
       "reorg.before" => {
+        // an update that keeps rolling back makes no progress: cut it short
+        // (reported as non-termination by the C14 check)
+        if nth >= 12 {
+          s.outcome.budget_exhausted = true;
+          s.step_budget = 0;
+        }
         // M has left `update_index`: its F and T are orphaned
         for f in &mut s.f_threads {
           f.stale = true;
@@ -618,6 +640,7 @@ impl ord::verif::Hooks for SimHooks {
         }
       }
       s.world.apply_event(&event);
+      s.world_log.push(event.clone());
       s.outcome.node_events_applied += 1;
     }
 
